@@ -871,3 +871,208 @@ def bound_args(call: ast.Call, params: list[str]) -> dict[str, ast.expr]:
         if k.arg is not None:
             out[k.arg] = k.value
     return out
+
+
+# --------------------------------------------------------------- normalise
+class _Subst(ast.NodeTransformer):
+    def __init__(self, m: dict[str, ast.expr]) -> None:
+        self.m = m
+
+    def visit_Name(self, n: ast.Name) -> ast.AST:
+        import copy
+        if isinstance(n.ctx, ast.Load) and n.id in self.m:
+            return copy.deepcopy(self.m[n.id])
+        return n
+
+
+class _UnrollLiteral(ast.NodeTransformer):
+    """`for v in (a, b): B` -> B[v:=a]; B[v:=b]   (v a name that B does not
+    re-bind; a leading `if c: continue` is read as `if not c: <rest>`; any
+    other break / continue / else keeps the loop as it is)."""
+
+    def visit_For(self, n: ast.For) -> Any:
+        import copy
+        self.generic_visit(n)
+        if not (isinstance(n.iter, (ast.Tuple, ast.List)) and isinstance(
+                n.target, ast.Name) and not n.orelse and n.iter.elts):
+            return n
+        body = list(n.body)
+        if body and isinstance(body[0], ast.If) and not body[0].orelse \
+                and len(body[0].body) == 1 and isinstance(
+                body[0].body[0], ast.Continue) and len(body) > 1:
+            body = [ast.copy_location(ast.If(
+                test=ast.UnaryOp(op=ast.Not(), operand=body[0].test),
+                body=body[1:], orelse=[]), body[0])]
+        for x in ast.walk(ast.Module(body=body, type_ignores=[])):
+            if isinstance(x, (ast.Break, ast.Continue)):
+                return n
+            if isinstance(x, ast.Name) and x.id == n.target.id and \
+                    isinstance(x.ctx, (ast.Store, ast.Del)):
+                return n
+        out: list[ast.stmt] = []
+        for e in n.iter.elts:
+            for b in body:
+                nb = _Subst({n.target.id: e}).visit(copy.deepcopy(b))
+                for y in ast.walk(nb):
+                    ast.copy_location(y, b) if not hasattr(
+                        y, "lineno") else None
+                out.append(nb)
+        return out
+
+
+class _Range2Enum(ast.NodeTransformer):
+    """`for k in range(len(seq)): v = seq[k]; B` -> `for k, v in
+    enumerate(seq): B` (seq a name that B neither re-binds nor resizes, k
+    and v not re-bound in B)."""
+
+    def visit_For(self, n: ast.For) -> ast.AST:
+        self.generic_visit(n)
+        it = n.iter
+        if not (isinstance(it, ast.Call) and isinstance(
+                it.func, ast.Name) and it.func.id == "range" and len(
+                it.args) == 1 and not it.keywords and isinstance(
+                it.args[0], ast.Call) and isinstance(
+                it.args[0].func, ast.Name) and it.args[0].func.id == "len"
+                and len(it.args[0].args) == 1 and isinstance(
+                it.args[0].args[0], ast.Name) and isinstance(
+                n.target, ast.Name) and len(n.body) > 1 and not n.orelse):
+            return n
+        seq, kv = it.args[0].args[0].id, n.target.id
+        first = n.body[0]
+        tg = first.targets[0] if isinstance(first, ast.Assign) and len(
+            first.targets) == 1 else (first.target if isinstance(
+                first, ast.AnnAssign) and first.value is not None else None)
+        val = getattr(first, "value", None)
+        if not (isinstance(tg, ast.Name) and isinstance(
+                val, ast.Subscript) and isinstance(
+                val.value, ast.Name) and val.value.id == seq and isinstance(
+                val.slice, ast.Name) and val.slice.id == kv):
+            return n
+        rest = n.body[1:]
+        for x in ast.walk(ast.Module(body=rest, type_ignores=[])):
+            if isinstance(x, ast.Name) and isinstance(
+                    x.ctx, (ast.Store, ast.Del)) and x.id in (
+                    seq, kv, tg.id):
+                return n
+            if isinstance(x, ast.Call) and isinstance(
+                    x.func, ast.Attribute) and isinstance(
+                    x.func.value, ast.Name) and x.func.value.id == seq \
+                    and x.func.attr in MUTATORS:
+                return n
+        new = ast.For(
+            target=ast.Tuple(elts=[ast.Name(id=kv, ctx=ast.Store()),
+                                   ast.Name(id=tg.id, ctx=ast.Store())],
+                             ctx=ast.Store()),
+            iter=ast.Call(func=ast.Name(id="enumerate", ctx=ast.Load()),
+                          args=[ast.Name(id=seq, ctx=ast.Load())],
+                          keywords=[]),
+            body=rest, orelse=[])
+        for x in ast.walk(new):
+            if not hasattr(x, "lineno"):
+                ast.copy_location(x, n)
+        ast.copy_location(new, n)
+        return new
+
+
+def normalised(repo: "Repo", fi: "FuncInfo",
+               cls: "ClassInfo | None" = None,
+               aliases: bool = False) -> "FuncInfo":
+    """A copy of the function in a canonical spelling, for rules that match
+    statement shapes: loops over literal tuples are unrolled, calls of
+    library functions pass their arguments positionally, and locals that
+    merely name a field of `self` / a parameter (`starts = self.__training`,
+    `ok = not (self.__c is None)`) are replaced by what they name - the
+    latter only if neither this function nor a method of `cls` that it
+    calls stores to that field."""
+    import copy
+    import dataclasses
+    node = copy.deepcopy(fi.node)
+    node = _UnrollLiteral().visit(node)
+    node = _Range2Enum().visit(node)
+    ast.fix_missing_locations(node)
+
+    # ---- keyword -> positional for resolvable library functions
+    class KwPos(ast.NodeTransformer):
+        def visit_Call(self, c: ast.Call) -> ast.AST:
+            self.generic_visit(c)
+            if not c.keywords or any(k.arg is None for k in c.keywords) \
+                    or any(isinstance(a, ast.Starred) for a in c.args):
+                return c
+            try:
+                tgt = repo.resolve_expr(fi.module, c.func)
+            except Exception:  # noqa: BLE001
+                tgt = None
+            if not isinstance(tgt, FuncInfo) or tgt.cls is not None:
+                return c
+            rest = list(tgt.params[len(c.args):])
+            kw = {k.arg: k.value for k in c.keywords}
+            take = rest[:len(kw)]
+            if set(take) != set(kw):
+                return c
+            c.args = list(c.args) + [kw[p_] for p_ in take]
+            c.keywords = []
+            return c
+    node = KwPos().visit(node)
+
+    # ---- aliases of fields
+    def pure_read(e: ast.expr) -> bool:
+        if isinstance(e, ast.Attribute):
+            b = e
+            while isinstance(b, ast.Attribute):
+                b = b.value
+            return isinstance(b, ast.Name) and b.id in fi.params
+        if isinstance(e, ast.UnaryOp) and isinstance(e.op, ast.Not):
+            return pure_read(e.operand)
+        if isinstance(e, ast.Compare) and len(e.ops) == 1 and isinstance(
+                e.ops[0], (ast.Is, ast.IsNot)) and isinstance(
+                e.comparators[0], ast.Constant) and \
+                e.comparators[0].value is None:
+            return pure_read(e.left)
+        return False
+
+    def stored_attrs(n_: ast.AST) -> set[str]:
+        out = set()
+        for x in ast.walk(n_):
+            if isinstance(x, ast.Attribute) and isinstance(
+                    x.ctx, (ast.Store, ast.Del)):
+                out.add(ast.unparse(x))
+        return out
+    stored = stored_attrs(node)
+    if cls is not None:
+        for c in ast.walk(node):
+            if isinstance(c, ast.Call) and isinstance(
+                    c.func, ast.Attribute) and isinstance(
+                    c.func.value, ast.Name) and c.func.value.id in \
+                    fi.params[:1]:
+                m = cls.methods.get(c.func.attr) or cls.methods.get(
+                    f"_{cls.name}{c.func.attr}")
+                if m is not None and m is not fi:
+                    stored |= stored_attrs(m.node)
+    body = node.body if isinstance(node, (ast.FunctionDef,
+                                          ast.AsyncFunctionDef)) else []
+    counts: dict[str, int] = {}
+    for x in ast.walk(node):
+        if isinstance(x, ast.Name) and isinstance(x.ctx, ast.Store):
+            counts[x.id] = counts.get(x.id, 0) + 1
+    alias: dict[str, ast.expr] = {}
+    keep: list[ast.stmt] = []
+    for st in body:
+        tg = st.targets[0] if isinstance(st, ast.Assign) and len(
+            st.targets) == 1 else (st.target if isinstance(
+                st, ast.AnnAssign) else None)
+        val = getattr(st, "value", None)
+        if isinstance(tg, ast.Name) and val is not None and counts.get(
+                tg.id) == 1 and tg.id not in fi.params and pure_read(
+                _Subst(alias).visit(copy.deepcopy(val))):
+            v2 = _Subst(alias).visit(copy.deepcopy(val))
+            reads = {ast.unparse(a_) for a_ in ast.walk(v2)
+                     if isinstance(a_, ast.Attribute)}
+            if not (reads & stored):
+                alias[tg.id] = v2
+                continue
+        keep.append(st)
+    if aliases and alias and isinstance(
+            node, (ast.FunctionDef, ast.AsyncFunctionDef)):
+        node.body = [_Subst(alias).visit(st) for st in keep] or [ast.Pass()]
+    ast.fix_missing_locations(node)
+    return dataclasses.replace(fi, node=node)
